@@ -4,16 +4,20 @@ import Mathlib.Tactic.IntervalCases
 /-!
 # C11 — the training LOOP of a layer under the CE loss: every step succeeds and the parameters follow gradient descent
 
-`FCCEInv`: the state before a step — reachable heap (`sum` mode); `W`, `B` distinct tracked unspent LEAVES `[O]` that no tensor
+Everything is stated for either mode `bm` of the Broadcast rule with the factor `c = bscale bm N`: `c = 1` in `sum` mode — what
+the property demands — and `c = 1/N` in `mean` mode, the tree as it is (finding D2): there every step is the gradient-descent
+step with learning rate `lr/N`, i.e. the loop descends `N` times more slowly than the optimizer's `lr` says.
+
+`FCCEInv`: the state before a step — reachable heap; `W`, `B` distinct tracked unspent LEAVES `[O]` that no tensor
 points at; an untracked unspent `[N, D]` input `x`; an untracked unspent `[N, O]` target `t`. Nothing is assumed about the
 rest of the heap, which after `k` steps contains the spent graphs of all earlier steps.
 
 `fc_ce_step_inv`: one step — `FC.Forward(x)`, `CE.Compute(y, t)`, `BackPropagate(loss)`, `Update` + `ResetGradContext(true)` of
 `W` and `B` — SUCCEEDS, ends in such a state again with `x`, `t` unchanged, and the new parameters are
-`gdStep (W, B) = (W − lr·∂loss/∂W, B − lr·∂loss/∂B)`.
+`gdStep (lr·c) (W, B) = (W − lr·c·∂loss/∂W, B − lr·c·∂loss/∂B)`.
 
 `fc_ce_training_loop`: by induction over the number of steps, ANY number `n` of steps succeeds and the parameters are the
-`n`-th iterate of `gdStep` from the initial ones: the loop follows the gradient-descent trajectory of its loss — here the
+`n`-th iterate of `gdStep (lr·c)` from the initial ones: the loop follows the gradient-descent trajectory of its loss — here the
 gradient depends on the current parameters (unlike `C11w.fc_training_loop`, where `Σ y` is affine), so the trajectory is the
 iteration of the map, not a closed form.
 -/
@@ -26,8 +30,8 @@ namespace C11p
 open RealScalar C01 C11x C11t C11r C11s C11w C16x C16z C16w C15x C15w C13x
 open C12x (tHat)
 
-structure FCCEInv (H : Heap ℝ) (w b x t N D O : Nat) : Prop where
-  reach : Reach .sum H
+structure FCCEInv (bm : BMode) (H : Heap ℝ) (w b x t N D O : Nat) : Prop where
+  reach : Reach bm H
   lw : Live H w
   lb : Live H b
   hx : x < H.size
@@ -74,27 +78,27 @@ theorem gdIter_congr (lr : ℝ) (N D O : Nat) (X T : Nat → Nat → ℝ) : ∀ 
     exact gdIter_congr lr N D O X T n _ _ (gdStep_congr lr N D O X T P Q h)
 
 /-- **one step of the loop keeps the loop's invariant** (see the header) -/
-theorem fc_ce_step_inv (lr : ℝ) {H : Heap ℝ} {w b x t N D O : Nat} (inv : FCCEInv H w b x t N D O) :
-    ∃ rw rb H', trainStep .sum lr (fcCe w b x t) [w, b] H = .ok ([rw, rb], H') ∧
-      FCCEInv H' rw rb x t N D O ∧ H'.val x = H.val x ∧ H'.val t = H.val t ∧
-      (∀ o, o < O → (H'.val rw).el [o] = (gdStep lr N D (fun n d => (H.val x).el [n, d]) (fun n o => (H.val t).el [n, o])
+theorem fc_ce_step_inv (bm : BMode) (lr : ℝ) {H : Heap ℝ} {w b x t N D O : Nat} (inv : FCCEInv bm H w b x t N D O) :
+    ∃ rw rb H', trainStep bm lr (fcCe w b x t) [w, b] H = .ok ([rw, rb], H') ∧
+      FCCEInv bm H' rw rb x t N D O ∧ H'.val x = H.val x ∧ H'.val t = H.val t ∧
+      (∀ o, o < O → (H'.val rw).el [o] = (gdStep (lr * bscale bm N) N D (fun n d => (H.val x).el [n, d]) (fun n o => (H.val t).el [n, o])
           (fun o => (H.val w).el [o], fun o => (H.val b).el [o])).1 o) ∧
-      (∀ o, o < O → (H'.val rb).el [o] = (gdStep lr N D (fun n d => (H.val x).el [n, d]) (fun n o => (H.val t).el [n, o])
+      (∀ o, o < O → (H'.val rb).el [o] = (gdStep (lr * bscale bm N) N D (fun n d => (H.val x).el [n, d]) (fun n o => (H.val t).el [n, o])
           (fun o => (H.val w).el [o], fun o => (H.val b).el [o])).2 o) := by
   obtain ⟨hR, lw, lb, hx, cx, ux, hwb, ww, wb, wx, dw, db, dx, ht, wt, dt, htt, htc, leafw, leafb, hsole⟩ := inv
   obtain ⟨y, H1, r, H2, h1, hrun, hext, R2, hy, himp⟩ :=
-    fc_ce_backprop H w b x t N D O hR lw lb hx cx hwb ww wb wx dw db dx ht wt dt htt htc hsole
+    fc_ce_backprop bm H w b x t N D O hR lw lb hx cx hwb ww wb wx dw db dx ht wt dt htt htc hsole
   have hfwd : fcCe w b x t H = .ok (r, H2) := by
     unfold fcCe
     rw [bind_run h1]
     exact hrun
-  have hok := fc_ce_backprop_ok .sum H w b x t N D O hR lw lb hx cx ux hwb ww wb wx dw db dx ht wt dt htt htc leafw leafb
+  have hok := fc_ce_backprop_ok bm H w b x t N D O hR lw lb hx cx ux hwb ww wb wx dw db dx ht wt dt htt htc leafw leafb
     y H1 h1 r H2 hrun
   obtain ⟨dW, dB, gW, gB, wW, wB, dWd, dBd, eW, eB⟩ := himp hok
   have vH : ∀ n, n < H.size → H2.val n = H.val n := fun n hn => hext.val hn
   have cH : ∀ n, n < H.size → H2.ctx n = H.ctx n := fun n hn => hext.ctx hn
   have hs2 := hext.1
-  obtain ⟨rs, H', hstep, hlen, _, hspec⟩ := train_step_law .sum lr (fcCe w b x t) [w, b] H H2 r hfwd hok
+  obtain ⟨rs, H', hstep, hlen, _, hspec⟩ := train_step_law bm lr (fcCe w b x t) [w, b] H H2 r hfwd hok
     [dW, dB] rfl (by
       intro k w' g hk hg
       match k, hk, hg with
@@ -110,25 +114,25 @@ theorem fc_ce_step_inv (lr : ℝ) {H : Heap ℝ} {w b x t N D O : Nat} (inv : FC
   have hrun' := hstep
   unfold trainStep at hrun'
   simp only [hfwd, hok] at hrun'
-  have Rb : Reach .sum (backprop .sum H2 r).heap := Reach.backprop R2
-  have sb : (backprop .sum H2 r).heap.size = H2.size := (backprop_val .sum H2 r 0).2
-  have hws : ∀ w' ∈ [w, b], w' < (backprop .sum H2 r).heap.size := by
+  have Rb : Reach bm (backprop bm H2 r).heap := Reach.backprop R2
+  have sb : (backprop bm H2 r).heap.size = H2.size := (backprop_val bm H2 r 0).2
+  have hws : ∀ w' ∈ [w, b], w' < (backprop bm H2 r).heap.size := by
     intro w' hw'
     rw [sb]
     simp at hw'
     have := lw.1; have := lb.1
     rcases hw' with rfl | rfl <;> omega
-  have R' : Reach .sum H' := reach_updateAll lr _ _ H' rs Rb hws hrun'
+  have R' : Reach bm H' := reach_updateAll lr _ _ H' rs Rb hws hrun'
   obtain ⟨hpw, hge⟩ := updateAll_sorted lr _ _ H' rs hws hrun'
   have clean2 : ∀ n, n < H.size → H.dirty n = false → H2.grad n = none := by
     intro n hn hc
     have := reach_clean_nograd hR n hc
     simp only [Heap.grad, cH n hn] at this ⊢; exact this
-  have visited_of : ∀ n g, H2.grad n = none → (backprop .sum H2 r).heap.grad n = some g → n ∈ backwardOrder H2 r := by
+  have visited_of : ∀ n g, H2.grad n = none → (backprop bm H2 r).heap.grad n = some g → n ∈ backwardOrder H2 r := by
     intro n g hn hg
     apply Classical.byContradiction
     intro hnot
-    have := C20.backprop_footprint .sum H2 r hdag2 n hnot
+    have := C20.backprop_footprint bm H2 r hdag2 n hnot
     simp only [Heap.grad, this] at hg hn
     rw [hn] at hg; cases hg
   have htr2 : H2.tracked r = true := by
@@ -137,13 +141,13 @@ theorem fc_ce_step_inv (lr : ℝ) {H : Heap ℝ} {w b x t N D O : Nat} (inv : FC
     split at m
     · assumption
     · simp at m
-  have hdirty : ∀ w' ∈ [w, b], w' < (backprop .sum H2 r).heap.size ∧ (backprop .sum H2 r).heap.dirty w' = true := by
+  have hdirty : ∀ w' ∈ [w, b], w' < (backprop bm H2 r).heap.size ∧ (backprop bm H2 r).heap.dirty w' = true := by
     intro w' hw'
     refine ⟨hws w' hw', ?_⟩
     simp at hw'
     rcases hw' with rfl | rfl
-    · exact C08.bp_marks_spent .sum H2 _ htr2 _ (visited_of _ dW (clean2 _ lw.1 lw.2.2) gW) (by have := lw.1; omega)
-    · exact C08.bp_marks_spent .sum H2 _ htr2 _ (visited_of _ dB (clean2 _ lb.1 lb.2.2) gB) (by have := lb.1; omega)
+    · exact C08.bp_marks_spent bm H2 _ htr2 _ (visited_of _ dW (clean2 _ lw.1 lw.2.2) gW) (by have := lw.1; omega)
+    · exact C08.bp_marks_spent bm H2 _ htr2 _ (visited_of _ dB (clean2 _ lb.1 lb.2.2) gB) (by have := lb.1; omega)
   have noedge := updateAll_no_edges lr _ _ H' rs hdirty hrun'
   obtain ⟨hsz', old⟩ := updateAll_old lr _ _ H' rs hws hrun'
   match rs, hlen with
@@ -166,9 +170,9 @@ theorem fc_ce_step_inv (lr : ℝ) {H : Heap ℝ} {w b x t N D O : Nat} (inv : FC
         intro hm
         have := order_tracked H2 _ hdag2 z hm
         rw [uz2] at this; cases this
-      have czb : (backprop .sum H2 r).heap.ctx z = H2.ctx z := C20.backprop_footprint .sum H2 _ hdag2 z hzn
+      have czb : (backprop bm H2 r).heap.ctx z = H2.ctx z := C20.backprop_footprint bm H2 _ hdag2 z hzn
       obtain ⟨oc, ov⟩ := old z (by rw [sb]; exact hz2)
-      exact ⟨by rw [oc, czb, cH z hz], by rw [ov, (backprop_val .sum H2 r z).1, vH z hz]⟩
+      exact ⟨by rw [oc, czb, cH z hz], by rw [ov, (backprop_val bm H2 r z).1, vH z hz]⟩
     obtain ⟨cx', vx'⟩ := untouched x hx ux
     obtain ⟨ct', vt'⟩ := untouched t ht htt
     refine ⟨rw, rb, H', hstep, ?_, vx', vt', ?_, ?_⟩
@@ -192,7 +196,8 @@ theorem fc_ce_step_inv (lr : ℝ) {H : Heap ℝ} {w b x t N D O : Nat} (inv : FC
       unfold stepped
       rw [C15y.zip_el _ (H.val w) dW ww wW (by rw [dw, dWd]) (by rw [dw]; exact valid1 ho), eW o ho]
       simp only [sub_eq, mul_eq, gdStep]
-      congr 2
+      rw [mul_assoc]
+      congr 3
       apply Finset.sum_congr rfl
       intro n hn
       rw [hy n o (Finset.mem_range.mp hn) ho]
@@ -201,17 +206,18 @@ theorem fc_ce_step_inv (lr : ℝ) {H : Heap ℝ} {w b x t N D O : Nat} (inv : FC
       unfold stepped
       rw [C15y.zip_el _ (H.val b) dB wb wB (by rw [db, dBd]) (by rw [db]; exact valid1 ho), eB o ho]
       simp only [sub_eq, mul_eq, gdStep]
-      congr 2
+      rw [mul_assoc]
+      congr 3
       apply Finset.sum_congr rfl
       intro n hn
       rw [hy n o (Finset.mem_range.mp hn) ho]
 
 /-- `n` steps of the training loop: each step hands the NEW parameter tensors to the next -/
-noncomputable def steps (lr : ℝ) (x t : Nat) : Nat → Nat × Nat → HM ℝ (Nat × Nat)
+noncomputable def steps (bm : BMode) (lr : ℝ) (x t : Nat) : Nat → Nat × Nat → HM ℝ (Nat × Nat)
   | 0, wb => pure wb
   | n + 1, (w, b) => fun H =>
-      match trainStep .sum lr (fcCe w b x t) [w, b] H with
-      | .ok ([rw, rb], H') => steps lr x t n (rw, rb) H'
+      match trainStep bm lr (fcCe w b x t) [w, b] H with
+      | .ok ([rw, rb], H') => steps bm lr x t n (rw, rb) H'
       | .ok _ => .err
       | .err => .err
       | .panic => .panic
@@ -219,25 +225,25 @@ noncomputable def steps (lr : ℝ) (x t : Nat) : Nat → Nat × Nat → HM ℝ (
 /-- **the whole loop**: from a state satisfying `FCCEInv`, ANY number `n` of training steps succeeds, ends in such a state,
     leaves the input and the target as they were, and the parameters are the `n`-th iterate of the gradient-descent map
     `gdStep` of the CE loss, started at the initial parameters: the loop follows the gradient-descent trajectory of its loss -/
-theorem fc_ce_training_loop (lr : ℝ) (x t N D O : Nat) : ∀ (n : Nat) (H : Heap ℝ) (w b : Nat), FCCEInv H w b x t N D O →
-    ∃ w' b' H', steps lr x t n (w, b) H = .ok ((w', b'), H') ∧ FCCEInv H' w' b' x t N D O ∧
+theorem fc_ce_training_loop (bm : BMode) (lr : ℝ) (x t N D O : Nat) : ∀ (n : Nat) (H : Heap ℝ) (w b : Nat), FCCEInv bm H w b x t N D O →
+    ∃ w' b' H', steps bm lr x t n (w, b) H = .ok ((w', b'), H') ∧ FCCEInv bm H' w' b' x t N D O ∧
       H'.val x = H.val x ∧ H'.val t = H.val t ∧
-      (∀ o, o < O → (H'.val w').el [o] = ((gdStep lr N D (fun n d => (H.val x).el [n, d]) (fun n o => (H.val t).el [n, o]))^[n]
+      (∀ o, o < O → (H'.val w').el [o] = ((gdStep (lr * bscale bm N) N D (fun n d => (H.val x).el [n, d]) (fun n o => (H.val t).el [n, o]))^[n]
           (fun o => (H.val w).el [o], fun o => (H.val b).el [o])).1 o) ∧
-      (∀ o, o < O → (H'.val b').el [o] = ((gdStep lr N D (fun n d => (H.val x).el [n, d]) (fun n o => (H.val t).el [n, o]))^[n]
+      (∀ o, o < O → (H'.val b').el [o] = ((gdStep (lr * bscale bm N) N D (fun n d => (H.val x).el [n, d]) (fun n o => (H.val t).el [n, o]))^[n]
           (fun o => (H.val w).el [o], fun o => (H.val b).el [o])).2 o)
   | 0, H, w, b, inv => ⟨w, b, H, rfl, inv, rfl, rfl, fun o _ => rfl, fun o _ => rfl⟩
   | n + 1, H, w, b, inv => by
-    obtain ⟨rw, rb, H1, hstep, inv1, vx, vt, e1, e2⟩ := fc_ce_step_inv lr inv
-    obtain ⟨w', b', H', hrun, inv', vx', vt', f1, f2⟩ := fc_ce_training_loop lr x t N D O n H1 rw rb inv1
-    have hc := gdIter_congr lr N D O (fun n d => (H.val x).el [n, d]) (fun n o => (H.val t).el [n, o]) n
+    obtain ⟨rw, rb, H1, hstep, inv1, vx, vt, e1, e2⟩ := fc_ce_step_inv bm lr inv
+    obtain ⟨w', b', H', hrun, inv', vx', vt', f1, f2⟩ := fc_ce_training_loop bm lr x t N D O n H1 rw rb inv1
+    have hc := gdIter_congr (lr * bscale bm N) N D O (fun n d => (H.val x).el [n, d]) (fun n o => (H.val t).el [n, o]) n
       (fun o => (H1.val rw).el [o], fun o => (H1.val rb).el [o])
-      (gdStep lr N D (fun n d => (H.val x).el [n, d]) (fun n o => (H.val t).el [n, o])
+      (gdStep (lr * bscale bm N) N D (fun n d => (H.val x).el [n, d]) (fun n o => (H.val t).el [n, o])
         (fun o => (H.val w).el [o], fun o => (H.val b).el [o]))
       (fun o ho => ⟨e1 o ho, e2 o ho⟩)
     refine ⟨w', b', H', ?_, inv', by rw [vx', vx], by rw [vt', vt], ?_, ?_⟩
-    · show (match trainStep .sum lr (fcCe w b x t) [w, b] H with
-          | .ok ([rw, rb], H') => steps lr x t n (rw, rb) H'
+    · show (match trainStep bm lr (fcCe w b x t) [w, b] H with
+          | .ok ([rw, rb], H') => steps bm lr x t n (rw, rb) H'
           | .ok _ => .err
           | .err => .err
           | .panic => .panic) = _
@@ -251,15 +257,15 @@ theorem fc_ce_training_loop (lr : ℝ) (x t N D O : Nat) : ∀ (n : Nat) (H : He
       exact (hc o ho).2
 
 /-- the invariant is satisfiable: `W = [3, 4]`, `B = [0, 1]` tracked leaves, `x = [[1, 2, 5]]`, `t = [[0, 1]]` untracked leaves -/
-example : ∃ (H : Heap ℝ) (w b x t N D O : Nat), FCCEInv H w b x t N D O := by
+example (bm : BMode) : ∃ (H : Heap ℝ) (w b x t N D O : Nat), FCCEInv bm H w b x t N D O := by
   let H0 : Heap ℝ := #[⟨⟨[2], [3, 4]⟩, freshCtx true⟩]
   let H1 : Heap ℝ := H0.push ⟨⟨[2], [0, 1]⟩, freshCtx true⟩
   let H2 : Heap ℝ := H1.push ⟨⟨[1, 3], [1, 2, 5]⟩, freshCtx false⟩
   let H3 : Heap ℝ := H2.push ⟨⟨[1, 2], [0, 1]⟩, freshCtx false⟩
-  have r0 : Reach .sum H0 := Reach.leaf (v := ⟨[2], [3, 4]⟩) (b := true) (r := 0) Reach.empty rfl
-  have r1 : Reach .sum H1 := Reach.leaf (v := ⟨[2], [0, 1]⟩) (b := true) (r := 1) r0 rfl
-  have r2 : Reach .sum H2 := Reach.leaf (v := ⟨[1, 3], [1, 2, 5]⟩) (b := false) (r := 2) r1 rfl
-  have r3 : Reach .sum H3 := Reach.leaf (v := ⟨[1, 2], [0, 1]⟩) (b := false) (r := 3) r2 rfl
+  have r0 : Reach bm H0 := Reach.leaf (v := ⟨[2], [3, 4]⟩) (b := true) (r := 0) Reach.empty rfl
+  have r1 : Reach bm H1 := Reach.leaf (v := ⟨[2], [0, 1]⟩) (b := true) (r := 1) r0 rfl
+  have r2 : Reach bm H2 := Reach.leaf (v := ⟨[1, 3], [1, 2, 5]⟩) (b := false) (r := 2) r1 rfl
+  have r3 : Reach bm H3 := Reach.leaf (v := ⟨[1, 2], [0, 1]⟩) (b := false) (r := 3) r2 rfl
   have hed : ∀ v, (H3.ctx v).edges = [] := by
     intro v
     by_cases h3 : v < 4
